@@ -67,6 +67,98 @@ theorem C12_failed_commit_structs_no_effect (s : State) (recs : List Rec) (b : B
     · simp only [Bool.not_true, Bool.false_eq_true, ↓reduceIte] at hfail
       split at hfail <;> cases hfail
 
+/-! ### injected write errors (the `WriteAt` of record `i` returns an error, nothing reaches the file) -/
+
+/-- without a fault the faulting commit is the commit -/
+theorem commitLoopF_none (recs : List Rec) (s : State) : commitLoopF s recs none = commitLoop s recs := by
+  induction recs generalizing s with
+  | nil => rfl
+  | cons r rest ih =>
+    simp only [commitLoopF, commitLoop]
+    split
+    · rfl
+    · simp [ih]
+
+theorem commitF_none (s : State) (recs : List Rec) : commitF s recs none = commit s recs := by
+  simp [commitF, commit, commitLoopF_none]
+
+theorem mem_fileEnsure_of_mem (fs : List File) (fid : Nat) (f : File) (h : f ∈ fs) : f ∈ fileEnsure fs fid := by
+  unfold fileEnsure
+  split
+  · exact h
+  · simp only [List.partition_eq_filter_filter, List.mem_append, List.mem_filter, List.mem_singleton]
+    by_cases hlt : f.fid < fid
+    · left; left; exact ⟨h, by simpa using hlt⟩
+    · right; exact ⟨h, by simpa using hlt⟩
+
+theorem mem_fileEnsure (fs : List File) (fid : Nat) (f : File) (h : f ∈ fileEnsure fs fid) : f ∈ fs ∨ f.recs = [] := by
+  unfold fileEnsure at h
+  split at h
+  · left; exact h
+  · simp only [List.partition_eq_filter_filter, List.mem_append, List.mem_filter, List.mem_singleton] at h
+    rcases h with (⟨h, _⟩ | h) | ⟨h, _⟩
+    · left; exact h
+    · right; rw [h]
+    · left; exact h
+
+/-- **C12 (I/O error at the first write).** When the very first `WriteAt` of a commit fails, Commit returns
+an error and the database is as before, except that the rotation which preceded the write may have
+created a new, empty active file: every index of every bucket, the set of committed transaction ids and
+the records of every existing data file are unchanged (so reads are unchanged in process and after reopen). -/
+theorem C12_write_error_first_record (s : State) (r : Rec) (rest : List Rec) (hfit : ¬ r.size > s.opt.seg) :
+    commitF s (r :: rest) (some 0) = (preRotate s r, .err) ∧
+    (∀ b, view (preRotate s r) b = view s b) ∧
+    (preRotate s r).committed = s.committed ∧
+    (∀ f ∈ s.files, f ∈ (preRotate s r).files) ∧
+    (∀ f ∈ (preRotate s r).files, f ∈ s.files ∨ f.recs = []) := by
+  refine ⟨by simp [commitF, commitLoopF, hfit], fun b => preRotate_view s r b, ?_, ?_, ?_⟩
+  · unfold preRotate rotate; split <;> rfl
+  · intro f hf
+    unfold preRotate rotate
+    split
+    · exact mem_fileEnsure_of_mem _ _ _ hf
+    · exact hf
+  · intro f hf
+    unfold preRotate rotate at hf
+    split at hf
+    · exact mem_fileEnsure _ _ _ hf
+    · left; exact hf
+
+/-- **C12 (I/O error, structure records).** When a write fails at any position of a transaction that holds
+list/set/sorted-set records only, no index of any bucket has changed. -/
+theorem commitLoopF_view_nonkv (recs : List Rec) (s : State) (fa : Option Nat) (b : Bytes) (h : ∀ r ∈ recs, r.ds ≠ dsKV) :
+    view (commitLoopF s recs fa).1 b = view s b := by
+  induction recs generalizing s fa with
+  | nil => rfl
+  | cons r rest ih =>
+    simp only [commitLoopF]
+    split
+    · rfl
+    · split
+      · exact preRotate_view s r b
+      · rw [ih _ _ (fun x hx => h x (by simp [hx])), writeRec_view_nonkv s r _ b (h r (by simp))]
+
+theorem C12_write_error_structs_no_effect (s : State) (recs : List Rec) (fa : Option Nat) (b : Bytes)
+    (hk : ∀ r ∈ recs, r.ds ≠ dsKV) (hfail : (commitF s recs fa).2 = .err) :
+    view (commitF s recs fa).1 b = view s b := by
+  unfold commitF at hfail ⊢
+  split at hfail
+  · cases hfail
+  · rename_i hne
+    simp only [hne, Bool.false_eq_true, ↓reduceIte]
+    have h1 := commitLoopF_view_nonkv recs s fa b hk
+    generalize commitLoopF s recs fa = p at h1 hfail ⊢
+    obtain ⟨s1, fine⟩ := p
+    cases fine
+    · simpa using h1
+    · simp only [Bool.not_true, Bool.false_eq_true, ↓reduceIte] at hfail
+      split at hfail <;> cases hfail
+
+/-- the hypotheses are satisfiable: a two-record list transaction whose second write fails -/
+example : (commitF (openDB { seg := 200 } []).1
+    [{ (mkRec [97] [107] [48] flagRPush dsList) with txid := 7 }, { (mkRec [97] [107] [49] flagRPush dsList) with txid := 7 }] (some 1)).2 = .err := by
+  decide
+
 /-- Witness of finding D-COMMIT-PARTIAL: `k = v0` is committed; the transaction `[put k v1, put big]`
 fails at its second record, yet afterwards `Get k` no longer finds `v0` and `GetAll` returns the
 uncommitted `v1`. -/
